@@ -491,6 +491,59 @@ def r6_token(ctx, fam):
                 where(h))
 
 
+def r7_host_identity(ctx, fam):
+    """the echo filter and the home-only rule compare host ids: the id must
+    be drawn afresh for every manager object.  On every normal path of the
+    constructor the value stored in `self.host_id` contains a call evaluated
+    in the constructor body (uuid4 ...), or is a required parameter; a
+    parameter default, a class attribute or a module constant is evaluated
+    once per process, so two managers of one process share it."""
+    m = ctx.model
+    P = PUBSUB[fam]
+    f = m.method(P, '__init__')
+    construct = P + '.__init__'
+    run = run_function(f, m)
+    a = f.node.args
+    defaults = {}
+    pos = a.posonlyargs + a.args
+    for p_, d in zip(pos[len(pos) - len(a.defaults):], a.defaults):
+        defaults[p_.arg] = d
+    for p_, d in zip(a.kwonlyargs, a.kw_defaults):
+        if d is not None:
+            defaults[p_.arg] = d
+    n = 0
+    for p in run.paths:
+        if not p.normal:
+            continue
+        st = [e for e in p.events if e.kind == 'store' and
+              U(e.expr) == 'self.host_id']
+        if not st:
+            ctx.bad(construct, 'no-host-id', 'a constructor path leaves '
+                    'host_id unset', where(f))
+            continue
+        n += 1
+        v = run.expand(st[-1].extra)
+        fresh = any(isinstance(x, ast.Call) for x in ast.walk(v))
+        params = [x.id for x in ast.walk(v) if isinstance(x, ast.Name) and
+                  x.id in f.params]
+        shared = [q for q in params if q in defaults and not fresh]
+        module_level = [x.id for x in ast.walk(v)
+                        if isinstance(x, ast.Name) and x.id not in f.params
+                        and not fresh]
+        ok = fresh or (params and not shared and not module_level)
+        ctx.check(ok, construct, 'host_id is drawn afresh for every manager '
+                  'object (stored value: %s)' % txt(v), key='host-id-fresh',
+                  reason='host_id is %s%s: evaluated once per process, every '
+                  'manager created in it gets the same id - a message of '
+                  'the other manager is taken for an own echo and dropped, '
+                  'and its acknowledgements complete local callbacks' % (
+                      txt(v), ' (default %s of parameter %s)' % (
+                          txt(defaults[shared[0]]), shared[0])
+                      if shared else ''), where=where(f, st[-1].node))
+    if not n:
+        raise AnalysisError(construct + ': no path stores host_id')
+
+
 def run(ctx):
     ctx.rule('C07.R1', 'message schema agreement between publishers, '
              'listener arms and handlers', floor=30)
@@ -498,6 +551,9 @@ def run(ctx):
              floor=10)
     for fam in SA:
         r1_r2_listener(ctx, fam)
+    ctx.rule('C07.R7', 'host identity is fresh per manager object', floor=2)
+    for fam in SA:
+        r7_host_identity(ctx, fam)
     ctx.rule('C07.R3', 'callbacks complete only at home', floor=8)
     for fam in SA:
         r3_callbacks(ctx, fam)
